@@ -19,6 +19,9 @@ def m_k2(v, f):
 MATCHERS = {"adjusted_rule_with_unserialisable_parse_error": m_k2}
 
 
+STALE_TAIL = b"\n/* an earlier, longer output */\n" + b".stale-tail-%d { color: #123456; background-color: #fedcba }\n" * 6
+
+
 def count_comments(text):
     """the non-empty comments anywhere in a stylesheet (top level, preludes, blocks, declaration values),
     in order; the empty comment is what tinycss2's serialiser puts between two tokens that would otherwise
@@ -57,10 +60,15 @@ def check(run):
         if run.rng.random() < 0.3:
             css2 = gen_css.carry_stylesheet(run.rng)
             files = {"site/main.css": css.encode(), "site/sub/deep/other.css": css2.encode(), "site/readme.txt": b"not css", "site/old_cm.css": b".stale { color: #777 }"}
+            if run.rng.random() < 0.35:
+                # an earlier, longer output is already there (a previous run with other settings, or of a longer stylesheet)
+                files["site/main_cm.css"] = css.encode() + STALE_TAIL
             jobs.append((files, "site", args)); metas.append((files, "site", dbg, mode, prem))
         else:
             name = run.rng.choice(["a.css", "my.style.css", "sub/x.css", "Ünï.css", "with space.css", "theme_cm.css", "lib.min.css"])
             files = {name: css.encode("utf-8")}
+            if run.rng.random() < 0.35:
+                files[name[:-4] + "_cm.css"] = css.encode("utf-8") + STALE_TAIL
             jobs.append((files, name, args)); metas.append((files, name, dbg, mode, prem))
     jobs.append(({"k2.css": b".ok { color: #777 } .x { *color: #777; color: #777 } .after { color: #888 }"}, "k2.css", []))
     metas.append((jobs[-1][0], "k2.css", "white", 1, False))
@@ -73,16 +81,16 @@ def check(run):
         run.hit("invocation.%s" % ("directory" if target == "site" else "file"))
         if im["exception"]:
             run.violation("the cm-colors command raised", case, details={"exception": im["exception"]}); continue
-        # (1) inputs untouched
-        for k, v in im["before"].items():
-            if im["after"].get(k) != v:
-                run.violation("an input file was modified or removed", case, details={"file": k})
-        # (2) nothing but <name>_cm.css beside each processed input, and the report in the working directory
         # directory runs skip *_cm.css; a file given directly is processed whatever its name
-        css_inputs = [k for k in files if k.endswith(".css") and not (target == "site" and k.endswith("_cm.css"))]
+        css_inputs = [k for k in files if k.endswith(".css") and not k.endswith("_cm.css")] if target == "site" else [target]
         allowed = set()
         for k in css_inputs:
             allowed.add(k[:-4] + "_cm.css")
+        # (1) inputs untouched (an earlier output that is already there is what the run is expected to replace)
+        for k, v in im["before"].items():
+            if im["after"].get(k) != v and k not in allowed:
+                run.violation("an input file was modified or removed", case, details={"file": k})
+        # (2) nothing but <name>_cm.css beside each processed input, and the report in the working directory
         new = [k for k in im["after"] if k not in im["before"]]
         for k in new:
             if k not in allowed:
